@@ -120,6 +120,44 @@ def case_rigid(case):
     return r.done(outcome=[dim] + idx)
 
 
+def case_dirlist(case):
+    """the estimate for one direction does not depend on the other directions requested with it nor on
+    its place in the list (also when the search cones overlap); quarter turns of the lattice map the
+    direction set onto itself in another order"""
+    r = R()
+    dim, idx = case["dim"], case["points"]
+    pos = _lat(dim)[:, idx]
+    n = len(idx)
+    f = VALS[:n]
+    dist, dvec = ov.euclid(pos)
+    edges = [0.0, 0.75, 1.2, 1.7, 2.4, 3.1]
+    s2 = math.sqrt(0.5)
+    D = [[1.0, 0.0], [0.0, 1.0], [s2, s2], [-s2, s2]] if dim == 2 else [[1.0, 0.0, 0.0], [0.0, 1.0, 0.0], [0.0, 0.0, 1.0], [s2, s2, 0.0]]
+    for tol in (math.pi / 8, 50 * math.pi / 180, 1.2):
+        masks, margin = ov.direction_masks(dvec, dist, np.array(D), tol, None)
+        if 0 < margin < 1e-9:
+            continue
+        single = [_est(pos, f, edges, direction=[d], angles_tol=tol) for d in D]
+        for k in (2, 3, 4):
+            for sel in itertools.permutations(range(len(D)), k):
+                if k == 4 and sel[0] > 1:
+                    continue
+                g, c = _est(pos, f, edges, direction=[D[i] for i in sel], angles_tol=tol)
+                ok = all(np.array_equal(np.atleast_2d(c)[j], np.atleast_2d(single[i][1])[0]) and np.allclose(np.atleast_2d(g)[j], np.atleast_2d(single[i][0])[0], rtol=1e-12, atol=1e-14) for j, i in enumerate(sel))
+                if not ok:
+                    r.fail("estimate for a direction is independent of the other directions in the list and of its position", {"counts": np.asarray(c).tolist()}, {"single": [np.asarray(single[i][1]).tolist() for i in sel]}, "", sel=list(sel), angles_tol=tol, dim=dim)
+                else:
+                    r.evals += 1
+        # quarter turn about the last axis: x -> y, y -> -x  (direction -x is the same axis as x)
+        Q = np.eye(dim)
+        Q[0, 0], Q[0, 1], Q[1, 0], Q[1, 1] = 0.0, -1.0, 1.0, 0.0
+        q = Q @ pos
+        g0, c0 = _est(pos, f, edges, direction=[D[0], D[1]], angles_tol=tol)
+        g1, c1 = _est(q, f, edges, direction=[D[0], D[1]], angles_tol=tol)
+        r.true("quarter turn of the coordinates swaps the x and y directional variograms", np.array_equal(c1[0], c0[1]) and np.array_equal(c1[1], c0[0]) and np.allclose(g1[0], g0[1], rtol=1e-12, atol=1e-14) and np.allclose(g1[1], g0[0], rtol=1e-12, atol=1e-14), info={"c0": np.asarray(c0).tolist(), "c1": np.asarray(c1).tolist()}, angles_tol=tol, dim=dim)
+    return r.done(outcome=[dim] + idx)
+
+
 def case_missing(case):
     """masked / no_data / NaN values are treated exactly like removed points"""
     r = R()
@@ -168,6 +206,16 @@ def case_missing(case):
                 for name, fld in (("NaN stack", np.array([A, B])), ("masked stack", np.ma.array([fa, fb], mask=[[i == ia for i in range(n)], [i == ib for i in range(n)]])), ("list of masked arrays", [np.ma.array(fa, mask=[i == ia for i in range(n)]), np.ma.array(fb, mask=[i == ib for i in range(n)])])):
                     g, c = _est(pos, fld, edges, estimator=est)
                     r.evals += 1
+                    if name == "masked stack":
+                        # an explicit mask on top of the fields' own (different) masks removes one more point for all fields
+                        for im in range(n):
+                            A2, B2 = A.copy(), B.copy()
+                            A2[im], B2[im] = np.nan, np.nan
+                            exp2, cnt2 = ov.unstructured(np.array([A2, B2]), edges, ov.euclid(pos)[0], est[0])
+                            g2, c2 = _est(pos, fld, edges, estimator=est, mask=np.array([i == im for i in range(n)]))
+                            r.evals += 1
+                            if not (np.array_equal(c2, cnt2) and np.allclose(g2, exp2, rtol=1e-12, atol=1e-14)):
+                                r.fail("stacked masked fields with different masks plus an explicit mask: each field keeps its own valid pairs outside the explicit mask", {"g": g2.tolist(), "c": c2.tolist()}, {"g": exp2.tolist(), "c": cnt2.tolist()}, "", missing=[ia, ib], explicit=im, edges=edges, estimator=est, **extra)
                     if not (np.array_equal(c, cnt) and np.allclose(g, exp, rtol=1e-12, atol=1e-14)):
                         r.fail("stacked fields with different missing patterns: each field contributes its own valid pairs", {"g": g.tolist(), "c": c.tolist()}, {"g": exp.tolist(), "c": cnt.tolist()}, "", how=name, missing=[ia, ib], edges=edges, estimator=est, **extra)
     return r.done(outcome=[dim] + idx)
@@ -327,7 +375,7 @@ def case_preproc(case):
     return r.done(outcome=[dim] + idx)
 
 
-GROUPS = {"perm": case_perm, "rigid": case_rigid, "missing": case_missing, "struct": case_struct, "latlon": case_latlon, "stdbins": case_stdbins, "preproc": case_preproc}
+GROUPS = {"dirlist": case_dirlist, "perm": case_perm, "rigid": case_rigid, "missing": case_missing, "struct": case_struct, "latlon": case_latlon, "stdbins": case_stdbins, "preproc": case_preproc}
 
 
 def run(chk):
@@ -344,6 +392,9 @@ def run(chk):
     chk.run("perm", case_perm, pc, rule="point multisets of the lattice {0,1,2}^d (n <= 5): all n! permutations, all 2^d d! lattice symmetries, integer translation, field offset and factors x 3 edge sets x both estimators x 1 and 2 fields (with NaN)", chunk=2)
     rc = [{"dim": c["dim"], "points": c["points"], "angles": [[gen[0], gen[1], gen[2]], [gen[3], gen[4], gen[5]], [math.pi / 2, 0.3, -1.0]]} for c in pc if len(set(c["points"])) >= 3][:: (1 if tier != "quick" else 2)]
     chk.run("rigid", case_rigid, rc, rule="generic rotations + translations (3 per seed) of lattice subsets with bin edges outside the guard band; directional estimates with co-rotated directions; angles= vs direction=", chunk=4, max_skip_frac=0.9)
+    # (distinct points: a coincident pair under the separated search is the open finding of C08)
+    dl = [c for c in pc if c["dim"] >= 2 and len(set(c["points"])) == len(c["points"]) >= 3][:: (1 if tier != "quick" else 3)]
+    chk.run("dirlist", case_dirlist, dl, rule="lattice point subsets without coincident points (dim 2, 3) x angles_tol {pi/8, 50 deg (cones of orthogonal axes overlap), 1.2} x every ordered selection of 2-4 directions from {e_x, e_y, (e_z), diagonals}: per-direction estimate equals the single-direction estimate; quarter turn of the coordinates swaps the axis variograms", chunk=4, max_skip_frac=0.9)
     mc = [c for c in pc if 4 <= len(c["points"]) <= 5 or (c["dim"] == 1 and len(c["points"]) >= 3)][:: (1 if tier != "quick" else 2)]
     chk.run("missing", case_missing, mc, rule="every subset of <= 2 removed points vs mask= / masked array / NaN / no_data / union of explicit and array mask / mask + NaN; two stacked fields with every pair of missing positions (NaN stack, masked stack, list of masked arrays)", chunk=2)
     sc = [{"shape": list(s), "seed": sd} for s in ([(2,), (3,), (2, 2), (3, 2), (3, 3)] + ([(2, 2, 2), (3, 2, 2)] if tier != "quick" else [(2, 2, 2)])) for sd in range(3 if tier == "quick" else 8)]
